@@ -374,6 +374,44 @@ pub fn run(args: &Args) -> i32 {
     }
     rep.set("decode_inputs", evals);
 
+    // ---- long lines: a scanner that works a word / a vector at a time, or that caches a scan
+    // position, has its corners beyond the short inputs above. Every length 8..=max_long of 'a'
+    // filler with every byte string of length <= 3 over the alphabet at every offset: decoded
+    // whole and fed in two pieces cut at the embedded bytes.
+    let max_long = args.opt_usize("long", args.tier.pick(40, 72));
+    let long_alpha: [u8; 6] = [b'a', b'\r', b'\n', 0xC3, 0xA9, 0xFF];
+    let lens: Vec<usize> = (8..=max_long).collect();
+    let long_parts = mcutil::par_map(args.threads, &lens, |_, &l| {
+        let mut n = 0u64;
+        let mut vios: Vec<Violation> = vec![];
+        for w in 1..=3usize {
+            for off in 0..=(l - w) {
+                mcutil::for_each_seq(6, w, |seq| {
+                    let mut input = vec![b'a'; l];
+                    for (i, s) in seq.iter().enumerate() {
+                        input[off + i] = long_alpha[*s];
+                    }
+                    n += 1;
+                    for v in check_decode(&input).into_iter().chain(check_chunked(&input, &[off.max(1).min(l - 1)])).chain(check_chunked(&input, &[(off + w).min(l - 1).max(1)])) {
+                        if !vios.iter().any(|y| y.signature == v.signature) {
+                            vios.push(v);
+                        }
+                    }
+                });
+            }
+        }
+        (n, vios)
+    });
+    let mut long_inputs = 0;
+    for (n, vios) in long_parts {
+        long_inputs += n;
+        for v in vios {
+            rep.violation(v);
+        }
+    }
+    rep.set("long_inputs", long_inputs);
+    rep.set("long_input_rule", format!("every length 8..={max_long} of 'a' filler with every byte string of length 1..=3 over {{a,CR,LF,C3,A9,FF}} at every offset: decoded whole (and by decode_eof after 0..2 decodes) and fed in two pieces cut before / after the embedded bytes, against the reference splitter"));
+
     // ---- round trip: sequences of <= 3 strings of <= L chars over {a, CR, LF, é}
     let chars = ['a', '\r', '\n', 'é'];
     let l = args.opt_usize("rtlen", args.tier.pick(2, 3));
